@@ -349,8 +349,9 @@ def replay(ctx, payload) -> int:
     crash.run_child(10**9, op_fn(kind, ref, pre), os.path.join(ctx.scratch, "t.jsonl"))
     post_sig = sig(read_state(ref))
     crash.run_child(k, op_fn(kind, root, pre), os.path.join(ctx.scratch, "t.jsonl"))
+    # (as in run(): the adoption probe comes BEFORE the judge, whose follow-up create / append writes a pointer)
+    adopt = create_adoption_check(root, []) if kind == "create" else None
     why, _ = judge(kind, root, pre, post_sig, pre_ptr)
-    if kind == "create" and not why:
-        why = create_adoption_check(root, [])
+    why = adopt or why
     print("replay:", "STILL FAILS: " + why if why else "passes now")
     return 1 if why else 0
